@@ -168,6 +168,61 @@ def direction_c(ctx):
             ctx.violation("published-vector-payload", f"published example {v['name']} yields another payload", {"dir": "C", "name": v["name"]})
 
 
+def scale_and_buffers(ctx, rng):
+    """payloads of several MB signed by joserfc and read by the reference (and the other way round); a secret handed over in a buffer the
+    caller overwrites afterwards"""
+    j = J.load()
+    hs, ec = gen.new_oct(256), gen.new_ec("P-256")
+    big = rng.randbytes((3 << 20) + 1)
+    for alg, jwk in (("HS256", hs), ("ES256", ec)):
+        rk = RefKey.from_jwk(jwk if jwk["kty"] == "oct" else gen.public_jwk(jwk))
+        for form in ("compact", "flat"):
+            ctx.ev()
+            if form == "compact":
+                o = call(j.jws.serialize_compact, {"alg": alg}, big, j.key(jwk), algorithms=[alg])
+                r = rjws.verify_compact(o.value, rk) if o.ok else None
+            else:
+                o = call(j.jws.serialize_json, {"protected": {"alg": alg}}, big, j.key(jwk), algorithms=[alg])
+                r = rjws.verify_json(o.value, rk) if o.ok else None
+            ctx.count("a_checked")
+            ctx.count("scale_cases")
+            ctx.nontrivial(("scale-A", alg, form))
+            case = {"dir": "A-scale", "alg": alg, "form": form}
+            if not o.ok:
+                ctx.violation(f"scale:sign-fails:{o.etype}", f"signing a 3 MiB payload ({alg}, {form}) failed: {o.exc!r}", case)
+            elif r.verdict != "ACCEPT" or r.payload != big:
+                ctx.violation(f"ref-rejects:{r.klass or 'payload'}:{alg}:scale", f"3 MiB payload signed by joserfc ({alg}, {form}): reference says {r.verdict} {r.reason}, "
+                              f"payload equal: {r.payload == big}", case)
+        # the other way round
+        ctx.ev()
+        t = rjws.compact({"alg": alg}, big, RefKey.from_jwk(jwk))
+        o = call(j.jws.deserialize_compact, t, j.key(jwk if jwk["kty"] == "oct" else gen.public_jwk(jwk)), algorithms=[alg])
+        ctx.count("b_checked")
+        ctx.nontrivial(("scale-B", alg))
+        if not o.ok or o.value.payload != big:
+            ctx.violation("joserfc-rejects-foreign:scale", f"3 MiB payload signed by the reference ({alg}): " + (repr(o.exc) if not o.ok else "payload differs"), {"dir": "B-scale", "alg": alg})
+    # HMAC uses the raw key octets: those handed over at import, whatever happens to the caller's buffer afterwards
+    for size in (32, 64, 200):
+        ctx.ev()
+        secret = rng.randbytes(size)
+        buf = bytearray(secret)
+        k = call(j.OctKey.import_key, buf)
+        if not k.ok:
+            ctx.count("bytearray_secret_refused")
+            continue
+        for i in range(len(buf)):
+            buf[i] = 0
+        del buf[8:]
+        o = call(j.jws.serialize_compact, {"alg": "HS256"}, b"buffer secret", k.value, algorithms=["HS256"])
+        ctx.count("a_checked")
+        ctx.nontrivial(("buffer-secret", size))
+        if o.ok:
+            r = rjws.verify_compact(o.value, RefKey.from_jwk(gen.oct_from(secret)))
+            if r.verdict != "ACCEPT":
+                ctx.violation("ref-rejects:crypto:HS256:secret-buffer-overwritten", "a token signed with a secret imported from a bytearray that the caller overwrote afterwards "
+                              "is not valid under the secret that was imported", {"dir": "A-buffer", "size": size})
+
+
 def run_shard(ctx):
     sc = selfcheck.run()
     if sc["failed"]:
@@ -178,6 +233,8 @@ def run_shard(ctx):
     rng = ctx.rng
     if ctx.shard == 0:
         direction_c(ctx)
+    if ctx.shard == 5:
+        scale_and_buffers(ctx, rng)
     # B: forced grid alg x form x style (round-robin over shards), payload rotating
     forms = ["compact", "flat", "general2", "c7797", "j7797"]
     k = 0
